@@ -140,8 +140,15 @@ class AuditProcFamily(Family):
                    "the stale-data ticker (1 min) does not fire during a case"]
     rule = ""
 
+    def modes_for(self, c):
+        if c.get("reasm"):
+            return (["reasm"], ["reasm"])
+        return (self.harness_mode, self.driver_args)
+
     def harness_line(self, c):
-        return "%s %s %s" % (c["id"], c["fail"], ";".join(c["ops"]))
+        if c.get("reasm"):
+            return "%s %d %d %s" % (c["id"], c["reasm"][0], c["reasm"][1], ";".join(c["ops"]))
+        return "%s %s %s%s" % (c["id"], c["fail"], ";".join(c["ops"]), (" after=%d" % c["after"]) if c.get("after") else "")
 
     def driver_line(self, c, impl_obs):
         s = self.harness_line(c)
@@ -150,6 +157,10 @@ class AuditProcFamily(Family):
         return s
 
     def sample(self, c):
+        if c.get("after"):
+            return {"fail_at_write": c["fail"], "ops": c["ops"], "after_seq": c["after"]}
+        if c.get("reasm"):
+            return {"reassembler_only": True, "max_in_flight": c["reasm"][0], "timeout_ms": c["reasm"][1], "ops": c["ops"]}
         return {"fail_at_write": c["fail"], "ops": c["ops"]}
 
     def signature(self, c, rec):
@@ -163,6 +174,8 @@ class AuditProcFamily(Family):
         d = {"ops": {}, "results": {}, "with_write_fault": 0, "lengths": {}, "fired": 0, "record_kinds": {}}
         for c in cases:
             for op in c["ops"]:
+                if c.get("reasm"):
+                    break
                 d["ops"][op[0]] = d["ops"].get(op[0], 0) + 1
                 if op[0] == "N":
                     k = op.split(":")[2]
@@ -170,6 +183,13 @@ class AuditProcFamily(Family):
             b = min(len(c["ops"]) // 10 * 10, 100)
             d["lengths"][str(b)] = d["lengths"].get(str(b), 0) + 1
             o = recs.get(c["id"], {}).get("impl") or ""
+            if c.get("reasm"):
+                d["reassembler_only"] = d.get("reassembler_only", 0) + 1
+                if "W" in c["ops"]:
+                    d["reassembler_with_expiry"] = d.get("reassembler_with_expiry", 0) + 1
+                if o.startswith("!stall"):
+                    d["stalled_skipped"] = d.get("stalled_skipped", 0) + 1
+                continue
             parts = o.split(";")
             e = parts[-2].split("@")[0] if len(parts) >= 2 else "?"
             d["results"][e] = d["results"].get(e, 0) + 1
@@ -178,6 +198,20 @@ class AuditProcFamily(Family):
             if parts and parts[-1] not in ("F:-", ""):
                 d["fired"] += 1
         return d
+
+    def reasm_case(self, r, with_expiry):
+        """the reassembler alone: few sequence numbers, every record kind in any order, a table so small
+        that it overflows, optionally expiry"""
+        nseq = 1 + r.below(6)
+        ops = []
+        for _ in range(1 + r.below(18)):
+            k = r.choice("sssyyxpppptte")
+            ops.append(N(1 + r.below(nseq), k, "o", "1", "9", "s", r.below(3) if k == "x" else 0, 0))
+            if r.below(12) == 0:
+                ops.append("M")
+            if with_expiry and r.below(10) == 0:
+                ops.append("W")
+        return {"fail": "-", "ops": ops, "reasm": (1 + r.below(4) if r.below(4) else 1000, 250 if with_expiry else 3600000)}
 
     def systematic(self, rng):
         """a malformed line at every position, a write failure at every k, an invalid login at every point"""
@@ -204,6 +238,14 @@ class AuditProcFamily(Family):
             cs.append(simple_stream(rng))
         for _ in range(1500 if quick else 20000):
             cs.append(random_stream(rng, thorough=not quick))
+        for _ in range(200 if quick else 3000):
+            c = random_stream(rng) if rng.below(2) else simple_stream(rng)
+            c["after"] = 1 + rng.below(14)          # Auditd.After: earlier events are ignored
+            cs.append(c)
+        for _ in range(1500 if quick else 15000):
+            cs.append(self.reasm_case(rng, False))
+        for _ in range(6 if quick else 60):
+            cs.append(self.reasm_case(rng, True))
         return cs
 
     def extra_cases(self, rng, n):
